@@ -12,6 +12,8 @@ fn lfi(s: &str) -> Result<u16, String> {
 }
 
 fn split_index(line: &str) -> Result<(usize, &str), String> {
+    // indentation before the index is layout, not content (what follows `N: ` is kept verbatim)
+    let line = line.trim_start_matches(|c| c == ' ' || c == '\t');
     let p = line.find(": ").or_else(|| if line.ends_with(':') { Some(line.len() - 1) } else { None }).ok_or_else(|| format!("no `N: ` prefix in `{}`", line))?;
     let idx = line[..p].parse::<usize>().map_err(|_| format!("bad index in `{}`", line))?;
     let rest = if p + 2 <= line.len() { &line[p + 2..] } else { "" };
@@ -147,8 +149,10 @@ fn parse_op(s: &str) -> Result<Ins, String> {
 
 /// Parse a listing. Every `Code` line must belong to exactly one method.
 pub fn parse(text: &str) -> Result<Model, String> {
-    let mut lines = text.split('\n').peekable();
-    if lines.next() != Some("Constant Pool:") {
+    // blank lines and trailing blanks after a section header are layout as well; a constant's
+    // line is never blank (it starts with its index) and the listed strings hold no raw LF
+    let mut lines = text.split('\n').filter(|l| !l.trim().is_empty()).peekable();
+    if lines.next().map(|l| l.trim_end()) != Some("Constant Pool:") {
         return Err("listing does not start with `Constant Pool:`".into());
     }
     let mut raw: Vec<RawConst> = vec![];
@@ -156,7 +160,7 @@ pub fn parse(text: &str) -> Result<Model, String> {
     loop {
         let line = lines.next().ok_or("listing ends inside the constant pool")?;
         if let Some(e) = line.strip_prefix("Entry: ") {
-            entry = cpi(e)?;
+            entry = cpi(e.trim_end())?;
             break;
         }
         let (idx, rest) = split_index(line)?;
@@ -165,13 +169,13 @@ pub fn parse(text: &str) -> Result<Model, String> {
         }
         raw.push(parse_value(rest).map_err(|e| format!("constant #{}: {}", idx, e))?);
     }
-    if lines.next() != Some("Globals:") {
+    if lines.next().map(|l| l.trim_end()) != Some("Globals:") {
         return Err("missing `Globals:`".into());
     }
     let mut globals = vec![];
     loop {
         let line = lines.next().ok_or("listing ends inside the globals")?;
-        if line == "Code:" {
+        if line.trim_end() == "Code:" {
             break;
         }
         let (idx, rest) = split_index(line)?;
